@@ -11,6 +11,7 @@ package vsync
 import (
 	"bytes"
 	"fmt"
+	"reflect"
 	"runtime"
 	"strconv"
 	gosync "sync"
@@ -46,6 +47,7 @@ type thread struct {
 	obj    interface{} // primitive it applies to
 	parked bool
 	done   bool
+	n      int // operand of a pending Add
 }
 
 // Point is one scheduling decision of an execution.
@@ -183,10 +185,12 @@ func (s *Sched) apply(t *thread) {
 		s.rw(t.obj.(*RWMutex)).readers++
 	case "RUnlock":
 		s.rw(t.obj.(*RWMutex)).readers--
+	case "Add":
+		s.wstate[t.obj.(*WaitGroup)] += t.n
 	case "Done":
 		s.wstate[t.obj.(*WaitGroup)]--
-		if t.id != 0 {
-			t.done = true // a spawned goroutine's Done is its last hooked operation
+		if t.id != 0 && !spawnHooked {
+			t.done = true // (spawns not hooked) a spawned goroutine's Done is its last hooked operation
 		}
 	}
 }
@@ -214,6 +218,20 @@ func (s *Sched) loop(finished chan struct{}) {
 				break
 			}
 			s.cv.Wait()
+		}
+		// "Start" has no effect on shared state and commutes with every operation of every other
+		// thread: it is not a decision. The started thread runs (alone) to its first real operation.
+		started := false
+		for _, t := range s.threads {
+			if !t.done && t.parked && t.op == "Start" {
+				t.parked = false
+				t.wake <- struct{}{}
+				started = true
+				break
+			}
+		}
+		if started {
+			continue
 		}
 		var en []*thread
 		var running *thread
@@ -261,6 +279,52 @@ func (s *Sched) loop(finished chan struct{}) {
 		t.parked = false
 		t.wake <- struct{}{}
 	}
+}
+
+// ---- spawn ----------------------------------------------------------------------------------------
+
+// spawnHooked: the rewritten source announces every goroutine it starts through G (gen/sync_rewrite.py
+// turns `go func(..){..}(args)` into `go sync.G(func(..){..})(args)`); WaitGroup.Add then no longer
+// stands in for the announcement, and a thread ends when its function returns.
+var spawnHooked bool
+
+// HookSpawns is called from a package-level initialiser of the rewritten file.
+func HookSpawns() bool { spawnHooked = true; return true }
+
+// G is evaluated by the SPAWNING goroutine (the operands of a go statement are evaluated there): it
+// announces the new thread to the scheduler - after every goroutine announced earlier has arrived,
+// so that thread ids follow the spawn order - and returns a function of the same type that first
+// parks at the scheduling point "Start" and marks the thread finished when f returns. Outside an
+// exploration, or when called by a goroutine the scheduler does not know, it returns f itself.
+func G[F any](f F) F {
+	s := current()
+	if s == nil {
+		return f
+	}
+	s.mu.Lock()
+	if s.byGid[goid()] == nil {
+		s.mu.Unlock()
+		return f
+	}
+	for s.pending > 0 {
+		s.cv.Wait()
+	}
+	s.pending++
+	s.mu.Unlock()
+	v := reflect.ValueOf(f)
+	w := reflect.MakeFunc(v.Type(), func(args []reflect.Value) []reflect.Value {
+		th := s.arrive("Start", nil)
+		defer func() {
+			if th != nil {
+				s.mu.Lock()
+				th.done = true
+				s.cv.Broadcast()
+				s.mu.Unlock()
+			}
+		}()
+		return v.Call(args)
+	})
+	return w.Interface().(F)
 }
 
 // ---- primitives ---------------------------------------------------------------------------------
@@ -330,15 +394,23 @@ type WaitGroup struct{ real gosync.WaitGroup }
 func (w *WaitGroup) Add(n int) {
 	if s := current(); s != nil {
 		s.mu.Lock()
+		if t := s.byGid[goid()]; t != nil && spawnHooked && t.id != 0 {
+			// an Add made by a spawned goroutine races with the spawner's Wait: a decision point
+			// (the model effect is applied by the scheduler when the thread is chosen)
+			t.n = n
+			s.mu.Unlock()
+			s.arrive("Add", w)
+			return
+		}
 		if t := s.byGid[goid()]; t != nil {
 			// not a scheduling point: it only announces goroutines that the scheduler must wait for.
 			// Goroutines announced earlier must have arrived first, so that thread ids follow the
 			// (deterministic) spawn order instead of the arrival race.
-			for s.pending > 0 {
+			for s.pending > 0 && !spawnHooked {
 				s.cv.Wait()
 			}
 			s.wstate[w] += n
-			if n > 0 {
+			if n > 0 && !spawnHooked {
 				s.pending += n
 			}
 			s.mu.Unlock()
